@@ -2,6 +2,7 @@ from __future__ import annotations
 
 import functools
 import operator
+import re
 import typing as t
 from abc import abstractmethod
 from dataclasses import dataclass, field, replace
@@ -110,15 +111,22 @@ class MarkerExpression(SingleMarker):
                 return None
             pkg_spec = next(iter(specifier.to_specifierset()))
             pkg_version = pkg_spec.version
+            # epoch and release segments; pre/post/dev suffixes follow them
+            release = re.match(r"(?:\d+!)?\d+(?:\.\d+)*", pkg_version)
             if (
-                (dot_num := pkg_version.count(".")) < 2
+                release is not None
+                and (dot_num := release.group().count(".")) < 2
                 and name == "python_full_version"
                 # padding would change the meaning of ~= and wildcard operands
                 and pkg_spec.operator != "~="
                 and not pkg_version.endswith(".*")
             ):
-                for _ in range(2 - dot_num):
-                    pkg_version += ".0"
+                # pad the release, not the text: "3.9a1" is "3.9.0a1"
+                pkg_version = (
+                    release.group()
+                    + ".0" * (2 - dot_num)
+                    + pkg_version[release.end() :]
+                )
             return MarkerExpression(
                 name, pkg_spec.operator, pkg_version, _specifier=specifier
             )
